@@ -215,6 +215,7 @@ class Ctx:
             "distribution": {},
         }
         self._distinct = set()
+        self._samp_rng = random.Random("samples/%s/%d" % (pid, seed))
         self.assumptions = []
         self.notes = []
 
@@ -232,8 +233,15 @@ class Ctx:
         if nontrivial:
             h = hashlib.blake2b(repr(canon).encode(), digest_size=8).digest()
             self._distinct.add(h)
-        if sample is not None and len(self.cov["samples"]) < 6:
-            self.cov["samples"].append(sample)
+        if sample is not None:
+            # reservoir of 6 samples drawn uniformly from the cases offered
+            self._nsamp = getattr(self, "_nsamp", 0) + 1
+            if len(self.cov["samples"]) < 6:
+                self.cov["samples"].append(sample)
+            else:
+                j = self._samp_rng.randrange(self._nsamp)
+                if j < 6:
+                    self.cov["samples"][j] = sample
 
     def validated(self, n=1):
         self.cov["traces_validated_against_impl"] += n
